@@ -194,7 +194,8 @@ impl<'p> Gen<'p> {
             }
             6 => {
                 let n = 1 + self.r.below(3);
-                Ns::NofK(1 + self.r.below(n) as u32, (0..n).map(|_| self.ns(depth + 1)).collect())
+                let need = if self.r.chance(1, 6) { 0 } else { 1 + self.r.below(n) as u32 };
+                Ns::NofK(need, (0..n).map(|_| self.ns(depth + 1)).collect())
             }
             _ => {
                 let t = if self.r.chance(1, 2) { Ns::After(self.r.range(0, 1 << 33)) } else { Ns::Before(self.r.range(1, 1 << 33)) };
@@ -225,6 +226,17 @@ impl<'p> Gen<'p> {
             if !self.w.scripts.contains(&s) {
                 self.plutus_ids.push(self.w.scripts.len() as u16);
                 self.w.scripts.push(s);
+            }
+        }
+        if self.r.chance(1, 4) && !self.plutus_ids.is_empty() {
+            // the same compiled bytes registered under another language version (another script hash)
+            let id = *self.r.pick(&self.plutus_ids.clone());
+            if let ScriptSpec::Plutus { lang, len, fill } = self.w.scripts[id as usize].clone() {
+                let s = ScriptSpec::Plutus { lang: 1 + (lang % 3), len, fill };
+                if !self.w.scripts.contains(&s) {
+                    self.plutus_ids.push(self.w.scripts.len() as u16);
+                    self.w.scripts.push(s);
+                }
             }
         }
     }
@@ -962,7 +974,13 @@ pub fn generate(seed: u64, tier: Tier, p: &Profile) -> Scenario {
         let mut cassets: Vec<AssetQ> = vec![];
         for _ in 0..n {
             let coin = 5_000_000 + g.amount() % 20_000_000 + g.min_ada(100);
-            let assets = if use_assets && g.r.chance(1, 4) { vec![AssetQ { p: classes[0].0, n: classes[0].1.clone(), q: 1 + g.amount() % 1000 }] } else { vec![] };
+            let assets: Vec<AssetQ> = if use_assets && g.r.chance(1, 4) {
+                // one to three asset classes (often several names under one policy)
+                let k = 1 + g.r.usize_below(3.min(classes.len()));
+                (0..k).map(|j| AssetQ { p: classes[j].0, n: classes[j].1.clone(), q: 1 + g.amount() % 1000 }).collect()
+            } else {
+                vec![]
+            };
             cassets.extend(assets.clone());
             let addr = g.key_addr();
             let u = g.new_utxo(addr, coin + g.min_ada(60) * assets.len() as u64, assets, None, None);
@@ -988,7 +1006,14 @@ pub fn generate(seed: u64, tier: Tier, p: &Profile) -> Scenario {
                     1 if !assets.is_empty() => assets[0].q += 1 + g.r.below(5),
                     2 => assets.push(AssetQ { p: 2000 + g.r.below(3) as u16, n: b"foreign".to_vec(), q: 1 + g.r.below(100) }),
                     3 if !assets.is_empty() => {
-                        assets.remove(0);
+                        let at = g.r.usize_below(assets.len());
+                        assets.remove(at);
+                    }
+                    5 if assets.len() >= 2 => {
+                        // keep only one asset, with less than the inputs hold
+                        let at = g.r.usize_below(assets.len());
+                        let a = assets[at].clone();
+                        assets = vec![AssetQ { q: a.q.saturating_sub(1).max(1), ..a }];
                     }
                     4 if !classes.is_empty() => {
                         let c = classes[classes.len() - 1].clone();
@@ -1015,6 +1040,7 @@ pub fn generate(seed: u64, tier: Tier, p: &Profile) -> Scenario {
                     1 => total,
                     2 => total + 1,
                     3 if rdatum.is_some() || rsref.is_some() => g.min_ada(60 * assets.len() as u64) + g.r.below(150_000),
+                    3 | 4 if g.k.cpb <= 420 => 65536 + g.r.below(300),
                     _ => (total / 2).max(g.min_ada(extra)),
                 };
                 coll_ops.push(Op::CollReturnAndTotal(OutSpec { addr: ret_addr, coin, assets, datum: rdatum, script_ref: rsref, min_coin: false, form: 0 }));
@@ -1393,7 +1419,8 @@ pub fn sign(sc: &Scenario, h: &History, b: &BuiltObs) -> Result<Signed, String> 
     let th = csl::TransactionHash::from_bytes(body_hash.to_vec()).unwrap();
     let mut ws = tx.witness_set();
     let mut ok_sigs = true;
-    if !keys.is_empty() {
+    {
+        // (the collection is handed over also when nobody has to sign with a key)
         let mut vk = csl::Vkeywitnesses::new();
         for (n, kh) in keys.iter().enumerate() {
             let km = match key_by_hash(kh) {
